@@ -1,0 +1,156 @@
+//go:build verif
+
+package rpc
+
+import (
+	"context"
+	"slices"
+
+	am "github.com/pancsta/asyncmachine-go/pkg/machine"
+)
+
+// Verification hooks (build tag `verif`): drive the real update codec
+// (sourceTracer.TransitionEnd, calcUpdate, calcUpdateMutations,
+// Client.clockUpdate, Client.clockUpdateMutations) without a network.
+
+// VerifCodec wires a real source machine to a real Client/NetworkMachine
+// through the real codec functions.
+type VerifCodec struct {
+	Src *am.Machine
+	S   *Server
+	T *sourceTracer
+	C *Client
+}
+
+// NewVerifCodec replicates what RemoteHello (server) and the client's
+// handshake handler set up: sync options, tracked states, the first export and
+// the client's mirror.
+func NewVerifCodec(
+	ctx context.Context, src *am.Machine, syncSchema, shallow, mutations bool,
+	allowed, skipped am.S,
+) (*VerifCodec, error) {
+	s := &Server{
+		Source:            src,
+		syncSchema:        syncSchema,
+		syncShallowClocks: shallow,
+		syncMutations:     mutations,
+		syncAllowedStates: allowed,
+		syncSkippedStates: skipped,
+		lastPushData:      &tracerData{},
+	}
+	t := &sourceTracer{TracerNoOp: &am.TracerNoOp{Id: "verif-src"}, s: s}
+	s.tracer = t
+
+	// --- RemoteHello (server side)
+	export, schema, err := src.Export()
+	if err != nil {
+		return nil, err
+	}
+	export.Time = slices.Clone(export.Time)
+	t.calcTrackedStates(export.StateNames)
+	t.active = true
+	tTrackedSum := export.Time.Filter(t.trackedStateIdxs).Sum(nil)
+	if !syncSchema {
+		export.StateNames = am.StatesShared(export.StateNames, t.trackedStates)
+		export.Time = export.Time.Filter(t.trackedStateIdxs)
+		schema = nil
+	} else {
+		for i := range export.StateNames {
+			if slices.Contains(t.trackedStateIdxs, i) {
+				continue
+			}
+			export.Time[i] = 0
+		}
+	}
+	s.lastPushData.mTime = export.Time
+	s.lastPushData.queueTick = export.QueueTick
+	s.lastPushData.mTrackedTimeSum = tTrackedSum
+
+	// --- client side
+	hs := am.New(ctx, am.Schema{ssC.HandshakeDone: {}}, &am.Opts{Id: "verif-cli"})
+	hs.Add1(ssC.HandshakeDone, nil)
+	nm, nmi, err := NewNetworkMachine(ctx, "verif-nm", nil, schema,
+		export.StateNames, src, nil, false)
+	if err != nil {
+		return nil, err
+	}
+	c := &Client{Mach: hs, NetMach: nm, netMachInt: nmi,
+		SyncShallowClocks: shallow, SyncAllowedStates: allowed,
+		SyncSkippedStates: skipped}
+	c.trackedStates = nm.stateNames
+	if c.SyncAllowedStates != nil {
+		c.trackedStates = am.StatesShared(c.trackedStates, c.SyncAllowedStates)
+	}
+	c.trackedStates = am.StatesDiff(c.trackedStates, c.SyncSkippedStates)
+	c.trackedStateIdxs = make([]int, len(c.trackedStates))
+	for i, name := range c.trackedStates {
+		c.trackedStateIdxs[i] = slices.Index(nm.stateNames, name)
+	}
+	nmi.Lock()
+	nmi.UpdateClock(slices.Clone(export.Time), export.QueueTick, export.MachineTick)
+
+	if _, err := src.BindTracer(t); err != nil {
+		return nil, err
+	}
+
+	return &VerifCodec{Src: src, S: s, T: t, C: c}, nil
+}
+
+// Snapshot feeds the tracer with the source machine's current time without a
+// real transition (used with am.TestMockClock for exhaustive snapshot pairs).
+func (v *VerifCodec) Snapshot() {
+	v.T.TransitionEnd(&am.Transition{Machine: v.Src, MachApi: v.Src,
+		Mutation: &am.Mutation{}})
+}
+
+// Push is pushUpdateLatest + storeLastPush without the network. nil = nothing
+// to push.
+func (v *VerifCodec) Push() *MsgSrvUpdate {
+	data := v.T.DataLatest()
+	if data == nil {
+		return nil
+	}
+	update := calcUpdate(v.S.syncSchema, data, v.S.lastPushData,
+		v.S.syncShallowClocks)
+	v.S.storeLastPush(data)
+	return update
+}
+
+// PushMuts is pushUpdateMutations + storeLastPush without the network.
+func (v *VerifCodec) PushMuts() *MsgSrvUpdateMuts {
+	data := v.T.DataLatest()
+	if data == nil {
+		return nil
+	}
+	ret := calcUpdateMutations(v.S.syncSchema, v.T.DataQueue(), v.S.lastPushData)
+	v.S.storeLastPush(data)
+	return ret
+}
+
+// Apply is the client's RemoteUpdate body.
+func (v *VerifCodec) Apply(u *MsgSrvUpdate) bool { return v.C.clockUpdate(u, false) }
+
+// ApplyMuts is the client's RemoteUpdateMutations body.
+func (v *VerifCodec) ApplyMuts(u *MsgSrvUpdateMuts) bool {
+	return v.C.clockUpdateMutations(u)
+}
+
+// Mirror returns the client's copy of the clocks.
+func (v *VerifCodec) Mirror() (am.Time, uint64, uint32) {
+	nm := v.C.NetMach
+	nm.clockMx.RLock()
+	defer nm.clockMx.RUnlock()
+	return slices.Clone(nm.machTime), nm.queueTick, nm.machTick
+}
+
+// SetMirror overwrites the client's copy (to provoke clock drift).
+func (v *VerifCodec) SetMirror(t am.Time, q uint64, m uint32) {
+	v.C.netMachInt.Lock()
+	v.C.netMachInt.UpdateClock(t, q, m)
+}
+
+// Tracked returns the tracked states' machine indexes (server view) and the
+// client's tracked indexes into its own name list.
+func (v *VerifCodec) Tracked() ([]int, []int) {
+	return slices.Clone(v.T.trackedStateIdxs), slices.Clone(v.C.trackedStateIdxs)
+}
